@@ -521,6 +521,29 @@ func sameValue(value1 *ast.Value, value2 *ast.Value) bool {
 	if value1.Raw != value2.Raw {
 		return false
 	}
+	// list and object literals carry their content in Children
+	if len(value1.Children) != len(value2.Children) {
+		return false
+	}
+	for i, child1 := range value1.Children {
+		child2 := value2.Children[i]
+		if value1.Kind == ast.ObjectValue {
+			// the order of the fields of an input object is not significant
+			child2 = nil
+			for _, c := range value2.Children {
+				if c.Name == child1.Name {
+					child2 = c
+					break
+				}
+			}
+			if child2 == nil {
+				return false
+			}
+		}
+		if !sameValue(child1.Value, child2.Value) {
+			return false
+		}
+	}
 	return true
 }
 
